@@ -472,7 +472,7 @@ class Gen:
         cat, kind, ctor, label_dir, avx = key
         k = len(units)
         need = max([(u["base"] or 0) + (u["pad"] or 0) for u in units]) + 24
-        cap = 32 if need <= 32 else 176
+        cap = [c for c in (32, 64, 96, 128, 176) if c >= need][0]
         unwind = UNWIND
         W = self.w
         W("pub fn g_%s<S: Src>(s: &mut S) -> Option<(u8, Outcome)> {" % gname)
@@ -653,7 +653,7 @@ def generate(tier, out_dir=None):
                    "branch_distances": "base + 0..=%d for base in %s" % (EXTRA_PAD, BRANCH_BASES_THOROUGH if tier == "thorough" else BRANCH_BASES_QUICK),
                    "branch_pad_max": (BRANCH_BASES_THOROUGH if tier == "thorough" else BRANCH_BASES_QUICK)[-1] + EXTRA_PAD,
                    "rl_distances": "base + 0..=%d for base in %s" % (EXTRA_PAD, RL_BASES_THOROUGH if tier == "thorough" else RL_BASES_QUICK),
-                   "vec_model_capacity": "32 (176 for branch units with long filler)"},
+                   "vec_model_capacity": "32; 64/96/128/176 for label units with longer filler"},
     }
     with open(os.path.join(out_dir, "harnesses.json"), "w") as f:
         json.dump(manifest, f, indent=1)
